@@ -179,6 +179,25 @@ fn writer_fault_one(input: &[u8], from: Option<F>, to: F, k: usize, reader: bool
 	None
 }
 
+/// Single documents of about 2.2 MB whose first value extends past detection's 2 MiB look-ahead.
+fn large_documents() -> Vec<(F, Vec<u8>, &'static str)> {
+	let big = 2_200_000usize;
+	let z = "z".repeat(big);
+	let mut mp = vec![0x81, 0xa1, b'p', 0xdb];
+	mp.extend((big as u32).to_be_bytes());
+	mp.extend(z.as_bytes());
+	let mut mpbin = vec![0x92, 0x01, 0xc6];
+	mpbin.extend((big as u32).to_be_bytes());
+	mpbin.extend(z.as_bytes());
+	vec![
+		(F::Json, format!("{{\"p\":\"{z}\"}}\n").into_bytes(), "json"),
+		(F::Msgpack, mp, "msgpack-str32"),
+		(F::Msgpack, mpbin, "msgpack-bin32"),
+		(F::Yaml, format!("p: {z}\n").into_bytes(), "yaml"),
+		(F::Toml, format!("p = \"{z}\"\n").into_bytes(), "toml"),
+	]
+}
+
 pub fn run(ctx: &Ctx) -> CheckOutput {
 	let thorough = ctx.thorough();
 	let corpus = corpus(thorough);
@@ -317,6 +336,37 @@ pub fn run(ctx: &Ctx) -> CheckOutput {
 		}
 	});
 	let mut tally = Tally::merge_all(tallies);
+	// --- large single documents (past the 2 MiB look-ahead cut-off of detection): the reader fails at
+	// every ladder offset and around 2 MiB
+	let larges = large_documents();
+	let mut ljobs: Vec<(usize, Option<F>, usize, usize)> = vec![];
+	for (i, (src, input, _)) in larges.iter().enumerate() {
+		let mut offs = crate::gen::size_ladder(false);
+		let m = 1usize << 21;
+		offs.extend([0, 1, 4, m - 1, m, m + 1, m + 4096, input.len() - 1, input.len()]);
+		for from in [Some(*src), None] {
+			for &k in &offs {
+				for chunk in [0usize, 65536] {
+					ljobs.push((i, from, k, chunk));
+				}
+			}
+		}
+	}
+	let cleans: Vec<Vec<crate::run::Outcome>> = larges.iter().map(|(src, input, _)| [Some(*src), None].iter().map(|&from| run_reader(ChunkReader::new(input, 0), from, F::Json)).collect()).collect();
+	let tl = par_fold(&ljobs, Tally::default, |t, _, &(i, from, k, chunk)| {
+		let (_, input, label) = &larges[i];
+		let clean = &cleans[i][usize::from(from.is_none())];
+		for kind in KINDS {
+			t.evaluations += 1;
+			t.count("reader-fault:large-documents");
+			if let Some((class, msg)) = reader_fault_kind(input, from, F::Json, k, chunk, clean, kind) {
+				t.bad(format!("{class}:large"), json!({"kind": "reader-fault-large", "document": label, "len": input.len(), "from": fname(from), "k": k, "chunk": chunk, "error_kind": format!("{kind:?}")}),
+					format!("{label} document of {} bytes from={} to=json: reader fails ({kind:?}) after {k} bytes (chunk {chunk}): {msg}", input.len(), fname(from)));
+			}
+		}
+		t.nontrivial(fnv(&[label.as_bytes(), fname(from).as_bytes(), &k.to_le_bytes()]));
+	});
+	tally.merge(Tally::merge_all(tl));
 	// --- flush forwarding
 	for to in F::ALL {
 		for fail in [false, true] {
@@ -338,12 +388,12 @@ pub fn run(ctx: &Ctx) -> CheckOutput {
 		}
 	}
 	let req = |k: &str| (k.to_string(), *tally.counters.get(k).unwrap_or(&0));
-	let required = vec![req("reader-fault:other-error-kinds"), req("reader-fault:fault-free-ok"), req("reader-fault:fault-free-err"), req("writer-fault:points"), req("short-write:configs"), req("flush:cases")];
+	let required = vec![req("reader-fault:other-error-kinds"), req("reader-fault:fault-free-ok"), req("reader-fault:fault-free-err"), req("writer-fault:points"), req("short-write:configs"), req("flush:cases"), req("reader-fault:large-documents")];
 	let _ = Rc::new(0);
 	CheckOutput {
 		level: "fault_enumeration",
 		tally,
-		rule: "corpus: seed corpus of every format + valid multi-document streams (short ones: every offset; three long streams per format whose first document ends around 8 KiB / 16 KiB: every offset within 12 bytes of each buffer edge and of the end, every offset of the last 80 bytes, and every 211th); for each input x source in {explicit, detected} x 4 targets: (1) reader delivers exactly k bytes then fails forever, for EVERY k in 0..=len (k=len replaces the EOF answer) under each chunk policy, with the error kinds Other, UnexpectedEof, InvalidData and Interrupted (once, then Other); oracle: Err, no panic, injected text preserved whenever the fault-free run succeeds, complete documents of the partial output (target framing, last segment never counted) are a document-prefix of the fault-free output; plus explorer runs where 'fail' is offered at every read together with short-read deviations; (2) writer accepts exactly k bytes then fails, for EVERY k in 0..len(out), slice and reader: Err, accepted bytes are a prefix of the fault-free output; (3) every short-write schedule within the deviation bound and the all-1-byte policy: Ok and exactly the fault-free output; (4) Translator::flush forwards the writer's flush error. Distinct non-trivial = (input, source, target, fault offset).".into(),
+		rule: "large documents: one 2.2 MB JSON / MessagePack (str 32, bin 32) / YAML / TOML document (past the 2 MiB look-ahead of detection), named and detected, the reader failing with each of 4 error kinds at every ladder offset 2^k-1, 2^k, 2^k+1 (4 KiB..64 KiB) and at 2 MiB-1, 2 MiB, 2 MiB+1, 2 MiB+4096, len-1, len, delivered all at once and in 64 KiB reads. corpus: seed corpus of every format + valid multi-document streams (short ones: every offset; three long streams per format whose first document ends around 8 KiB / 16 KiB: every offset within 12 bytes of each buffer edge and of the end, every offset of the last 80 bytes, and every 211th); for each input x source in {explicit, detected} x 4 targets: (1) reader delivers exactly k bytes then fails forever, for EVERY k in 0..=len (k=len replaces the EOF answer) under each chunk policy, with the error kinds Other, UnexpectedEof, InvalidData and Interrupted (once, then Other); oracle: Err, no panic, injected text preserved whenever the fault-free run succeeds, complete documents of the partial output (target framing, last segment never counted) are a document-prefix of the fault-free output; plus explorer runs where 'fail' is offered at every read together with short-read deviations; (2) writer accepts exactly k bytes then fails, for EVERY k in 0..len(out), slice and reader: Err, accepted bytes are a prefix of the fault-free output; (3) every short-write schedule within the deviation bound and the all-1-byte policy: Ok and exactly the fault-free output; (4) Translator::flush forwards the writer's flush error. Distinct non-trivial = (input, source, target, fault offset).".into(),
 		exhaustive: true,
 		bounds: json!({"short_write_deviations": d_short, "reader_fault_offsets": "all", "writer_fault_offsets": "all"}),
 		assumptions: vec!["failing readers/writers keep failing once they failed; Interrupted/Ok(0) are not offered".into()],
@@ -367,6 +417,18 @@ pub fn replay(case: &Value) -> Option<String> {
 				_ => std::io::ErrorKind::Other,
 			};
 			reader_fault_kind(&input, from, to, case["k"].as_u64().unwrap() as usize, case["chunk"].as_u64().unwrap() as usize, &clean, kind).map(|x| x.1)
+		}
+		"reader-fault-large" => {
+			let (_, input, _) = large_documents().into_iter().find(|d| d.2 == get("document"))?;
+			let from = F::parse(&get("from"));
+			let clean = run_reader(ChunkReader::new(&input, 0), from, F::Json);
+			let kind = match case["error_kind"].as_str() {
+				Some("UnexpectedEof") => std::io::ErrorKind::UnexpectedEof,
+				Some("InvalidData") => std::io::ErrorKind::InvalidData,
+				Some("Interrupted") => std::io::ErrorKind::Interrupted,
+				_ => std::io::ErrorKind::Other,
+			};
+			reader_fault_kind(&input, from, F::Json, case["k"].as_u64().unwrap() as usize, case["chunk"].as_u64().unwrap() as usize, &clean, kind).map(|x| x.1)
 		}
 		"writer-fault-reader" | "writer-fault-slice" => {
 			let input = unhex(&get("input_hex"));
